@@ -65,14 +65,15 @@ def model(tier, rep, name="StringView"):
     return inputs
 
 
-def build_drivers(tier, sanitize=False):
+def build_drivers(tier, sanitize=False, std=True):
     san = ["-fsanitize=address,undefined", "-fno-sanitize-recover=all", "-g"] if sanitize else []
     sfx = "_san" if sanitize else ""
-    jobs = [dict(src="stringview_driver.cpp", out="stringview_etl" + sfx, flags=san, std="c++23"),
-            dict(src="stringview_driver.cpp", out="stringview_std" + sfx, flags=["-DVH_STD"] + san, std="c++23",
-                 include_repo=False)]
+    jobs = [dict(src="stringview_driver.cpp", out="stringview_etl" + sfx, flags=san, std="c++23")]
+    if std:
+        jobs.append(dict(src="stringview_driver.cpp", out="stringview_std" + sfx, flags=["-DVH_STD"] + san, std="c++23",
+                         include_repo=False))
     paths = vlib.build_many(jobs)
-    return {"etl": paths[0], "std": paths[1]}
+    return {"etl": paths[0], "std": paths[1] if std else None}
 
 
 SAN_ENV = {"ASAN_OPTIONS": "symbolize=0:detect_leaks=0:abort_on_error=0:allocator_may_return_null=1",
@@ -145,8 +146,19 @@ def _cleanup(paths):
 
 
 def pipeline(tier, rep, calibrate=True, name="StringView"):
+    # self-test shortcuts (tools/str_mutants.py): the calibration does not depend on the tree under test, and one
+    # character type is enough to show that a seeded bug is noticed
+    calibrate = calibrate and not os.environ.get("VERIF_NOCALIB")
+    only = [t for t in os.environ.get("VERIF_TYPES", "").split(",") if t]
+    global TYPES
+    if only:
+        TYPES = tuple(t for t in TYPES if t in only)
+        rep.notes.append({"restricted_char_types": list(TYPES)})
     inputs = model(tier, rep, name)
-    bins = build_drivers(tier)
+    if only:
+        for inp in inputs.values():
+            inp["types"] = tuple(t for t in inp["types"] if t in TYPES)
+    bins = build_drivers(tier, std=calibrate)
     # calibration first: a deviation of libstdc++ is an error of the specification / projection
     if calibrate:
         ctr, cst = execute(tier, inputs, bins["std"], "std")
@@ -164,7 +176,7 @@ def pipeline(tier, rep, calibrate=True, name="StringView"):
     if not tv["deviations"]:
         _cleanup(traces)
     if tier == "thorough":
-        sbins = build_drivers(tier, sanitize=True)
+        sbins = build_drivers(tier, sanitize=True, std=calibrate)
         nrnd = (500, 64)
         if calibrate:
             ctr, cst = execute(tier, inputs, sbins["std"], "std", tags=SAN_DOMAINS, tag="_san", env=SAN_ENV, nrandom=nrnd)
